@@ -130,6 +130,7 @@ type vfOp struct {
 	Lines []string `json:"lines,omitempty"` // append/complete: whole lines added (complete: first element finishes the partial line)
 	Part  string   `json:"part,omitempty"`  // partial: bytes without newline
 	Shift bool     `json:"shift,omitempty"` // rotate: shift the whole chain
+	SameSize bool  `json:"same_size,omitempty"` // append right after a rotation: make the new file exactly as large as the old one was
 }
 
 type vfCase struct {
@@ -218,7 +219,11 @@ func genVfCase(rt *rapid.T) vfCase {
 			c.Ops = append(c.Ops, vfOp{K: "complete", Lines: append([]string{vfLine(rt, "rest")}, vfLines(rt, "more", 0, 2)...)})
 			partial = false
 		case k < 5 && !partial:
-			c.Ops = append(c.Ops, vfOp{K: "append", Lines: vfLines(rt, "app", 1, 4)})
+			op := vfOp{K: "append", Lines: vfLines(rt, "app", 1, 4)}
+			if len(c.Ops) > 0 && c.Ops[len(c.Ops)-1].K == "rotate" && rapid.Bool().Draw(rt, "samesize") {
+				op.SameSize = true // lines chosen at run time so that the new file reaches exactly the old file's size
+			}
+			c.Ops = append(c.Ops, op)
 		case k < 7 && !partial:
 			c.Ops = append(c.Ops, vfOp{K: "partial", Part: vfPartial(rt, "part")})
 			partial = true
@@ -390,12 +395,17 @@ func execVfCase(c vfCase) Outcome {
 	live := filepath.Join(vfDir, "audit.log")
 	pending := c.LivePar // unterminated bytes at the end of the live file
 	nextRot := 1000
+	lastRotatedSize := 0
 	labels := []string{}
 	ntRotThenAppend, sawRotOrTrunc, splitLine := false, false, false
 	for i, op := range c.Ops {
 		stage := fmt.Sprintf("after op %d (%s)", i, op.K)
 		switch op.K {
 		case "append", "complete":
+			if op.SameSize && lastRotatedSize > 1 {
+				// one line of exactly the rotated-out file's size
+				op.Lines = []string{strings.Repeat("z", lastRotatedSize-1)}
+			}
 			fsys.mu.Lock()
 			ino := fsys.files[live]
 			ino.data = append(ino.data, vfJoin(op.Lines, "")...)
@@ -428,6 +438,7 @@ func execVfCase(c vfCase) Outcome {
 			fsys.mu.Lock()
 			old, had := fsys.files[live]
 			if had {
+				lastRotatedSize = len(old.data)
 				delete(fsys.files, live)
 				nextRot++
 				fsys.files[filepath.Join(vfDir, fmt.Sprintf("audit.log.%d", nextRot))] = old
